@@ -20,7 +20,7 @@ RULE = ('mode A: small concurrent programs (2-4 clients x 2-5 calls over 1-3 key
         'evaluations = histories checked; distinct_nontrivial = distinct schedule traces that contained at least one '
         'preemption inside an operation (mode A) plus free runs with overlapping operation pairs (mode B)')
 DISTINCT = ('shared_object_schedules', 'schedules_with_preemption_in_op', 'free_runs_with_overlap')
-REQUIRED = ('lookups_overlapping_remove_and_store', 'schedules_through_a_sharded_cache', 'fork_runs', 'shared_object_programs', 'shared_object_schedules_judged', 'schedules_interleaved_at_statement_level', 'statement_level_gates_passed', 'calls_joining_an_enclosing_transaction', 'schedules_with_rollbacks_of_waiting_calls', 'histories_checked', 'schedules_shared_object', 'schedules_separate_objects', 'lock_waits_observed',
+REQUIRED = ('expired_present_keys_with_lazy_culling', 'lookups_overlapping_remove_and_store', 'schedules_through_a_sharded_cache', 'fork_runs', 'shared_object_programs', 'shared_object_schedules_judged', 'schedules_interleaved_at_statement_level', 'statement_level_gates_passed', 'calls_joining_an_enclosing_transaction', 'schedules_with_rollbacks_of_waiting_calls', 'histories_checked', 'schedules_shared_object', 'schedules_separate_objects', 'lock_waits_observed',
             'file_backed_values', 'free_runs_threads', 'free_runs_processes', 'lru_stat_schedules', 'expired_present_keys',
             'handles_opened_during_schedules', 'partly_consumed_iterations', 'timeouts_under_commit_contention')
 ASSUMPTIONS = ('threads are interleaved at SQL-statement and value-file-operation granularity (where diskcache\'s '
@@ -229,10 +229,15 @@ def mode_a(dc, sc, res, rng, tier, label, variant):
     shared = rng.random() < 0.5
     settings = {'disk_min_file_size': T, 'timeout': 0}
     expired_keys = []
+    lazy_cull = 0
     if variant == 'expired':
         # some keys are present but already expired (never culled: cull_limit 0): to every operation they are absent,
         # and add / incr over them rewrite the row in place - atomically
+        # half of the runs leave lazy culling on: a write then removes the expired rows it comes across (also the row of
+        # the key it is about to write, seeded/C05-11); len and iteration are not part of these programs
         settings['cull_limit'] = 0
+        lazy_cull = rng.choice([0, 10])       # switched on after the expired rows are planted (a store culls itself otherwise)
+        res.count('expired_present_keys_with_lazy_culling' if lazy_cull else 'expired_present_keys_never_culled')
         expired_keys = [k for k in keys if rng.random() < 0.7]
         for k in expired_keys:
             init.pop(k, None)
@@ -298,6 +303,8 @@ def mode_a(dc, sc, res, rng, tier, label, variant):
         setup.set(k, v)
         if isinstance(v, str) and len(v) >= T:
             res.count('file_backed_values')
+    if expired_keys and lazy_cull:
+        setup.reset('cull_limit', lazy_cull)
     # clients with their own handle open it (and sometimes re-open it) inside the scheduled run, while the others are
     # in the middle of their operations: opening a handle is part of using the directory and must not disturb them
     late = (not shared) and rng.random() < 0.6
